@@ -11,6 +11,7 @@
 //! Every record returned `Ok` has every accessor touched (vnd::read_log). Outcome must be Ok or io::Error.
 
 mod cases;
+mod nest;
 mod pool;
 
 use std::time::Duration;
@@ -46,6 +47,17 @@ fn replay_payload(plan: &'static Plan, p: &Value) -> Result<(), (String, String)
         move || {
             pool::arm(false);
             let r = vmc::catch(|| -> Result<String, (String, String)> {
+                if p2["kind"].as_str() == Some("nest") {
+                    let c = nest_case_of(&p2);
+                    return match nest::run(&c, &plan.nest_target, || {}) {
+                        nest::Out::Ok => Ok("decoded to the payload".into()),
+                        nest::Out::Err(e) if c.depth > 3 || !c.entry.has_payload() => Ok(format!("Err({e})")),
+                        nest::Out::Err(e) => Err(("outcome=shallow-nesting-rejected".into(), format!("Err({e})"))),
+                        nest::Out::Wrong(w) => Err(("outcome=wrong-output".into(), w)),
+                        nest::Out::Panic(msg, file) => Err((format!("outcome=panic msg={} file={}", vmc::normalise_msg(&msg), pool::norm_file(&file)), format!("panic: {msg} in {file}"))),
+                        nest::Out::NoInput => Ok("no input".into()),
+                    };
+                }
                 if kind_is_codec(&p2) {
                     let name = p2["codec"].as_str().unwrap_or("");
                     let codec = plan.codecs.iter().copied().chain(plan.streams.iter().map(|s| s.codec)).find(|c| c.name() == name);
@@ -96,6 +108,43 @@ fn replay_payload(plan: &'static Plan, p: &Value) -> Result<(), (String, String)
     }
 }
 
+fn nest_case_of(p: &Value) -> nest::NestCase {
+    nest::NestCase {
+        entry: nest::Entry::parse(p["entry"].as_str().unwrap_or("")).unwrap_or(nest::Entry::RansNx16),
+        leaf: nest::Leaf::parse(p["leaf"].as_str().unwrap_or("")),
+        depth: p["depth"].as_u64().unwrap_or(1).max(1) as usize,
+        stack: p["stack"].as_u64().unwrap_or(8 << 20) as usize,
+    }
+}
+
+/// Smallest nesting depth at which the decoder overflows a stack of the given size (isolated child per probe;
+/// overflow is monotone in the depth), with the input size; `None` when 200 000 levels do not overflow.
+fn min_overflow_depth(plan: &'static Plan, entry: nest::Entry, stack: usize) -> Option<(usize, usize)> {
+    let overflows = |depth: usize| -> bool {
+        let c = nest::NestCase { entry, leaf: nest::Leaf::Cat, depth, stack };
+        let r = pool::run_isolated(
+            move || {
+                pool::arm(false);
+                let _ = nest::run(&c, &plan.nest_target, || {});
+                "done".into()
+            },
+            Duration::from_secs(20),
+        );
+        matches!(r, Err(e) if e.contains("cause=stack-overflow"))
+    };
+    let mut hi = 200_000usize;
+    if !overflows(hi) {
+        return None;
+    }
+    let mut lo = 1usize; // does not overflow
+    while hi - lo > 1 {
+        let mid = lo + (hi - lo) / 2;
+        if overflows(mid) { hi = mid } else { lo = mid }
+    }
+    let c = nest::NestCase { entry, leaf: nest::Leaf::Cat, depth: hi, stack };
+    Some((hi, nest::input(&c, &plan.nest_target).map(|b| b.len()).unwrap_or(0)))
+}
+
 fn kind_is_codec(p: &Value) -> bool {
     p["kind"].as_str() == Some("codec")
 }
@@ -113,6 +162,7 @@ fn main() {
             plan.streams.len()
         ));
         ctx.assume("a single allocation request in [256 MiB, 16 GiB) is not judged: the case is cut short by parking the requesting thread (counted as big_alloc, listed by site); a request >= 16 GiB is classified as abort");
+        ctx.rule("nesting-depth family: one-chunk STRIPE streams (the only construct of the formats read that can contain itself) nested to depth {1,2,3,10,100,1000,2000,5000,10000,100000} around a CAT / encoder-made order-0 leaf, decoded by rans_nx16 / aac directly, through the name tokenizer's token byte streams, and through a CRAM file whose external block names method 5 / 6, each on a thread with an 8 MiB (main-thread default) and a 2 MiB (std::thread default) stack: depth <= 3 must decode to the payload, deeper ones to the payload or Err, and the process must survive (a worker death with the runtime's 'has overflowed its stack' message is outcome=abort cause=stack-overflow)");
         ctx.assume("the > 64 KiB documents are not mutated (their structure repeats that of the small ones)");
         ctx.assume("miniz_oxide / crc32fast (re-sealing) are correct; a re-sealed CRAM keeps stale CRC32s only where the mutation itself made the container unwalkable");
 
@@ -205,5 +255,25 @@ fn main() {
             });
         }
         ctx.extra("big_alloc_sites_all_stages", json!(all_sites));
+
+        // evidence for the nesting family: the smallest depth that overflows each stack size, per entry
+        // (thorough only: ~40 isolated probes per entry, each a fork of this process)
+        if thorough && only.as_ref().map(|o| "nesting".contains(o.as_str())).unwrap_or(true) {
+            let t = std::time::Instant::now();
+            let mut m = vmc::serde_json::Map::new();
+            for entry in nest::Entry::ALL.into_iter().filter(|e| e.has_payload()) {
+                let mut per = vmc::serde_json::Map::new();
+                for stack in nest::STACKS {
+                    let v = match min_overflow_depth(plan, entry, stack) {
+                        Some((d, n)) => json!({"min_depth": d, "input_bytes": n}),
+                        None => json!("no overflow up to depth 200000"),
+                    };
+                    per.insert(format!("stack={}MiB", stack >> 20), v);
+                }
+                m.insert(entry.name().to_string(), Value::Object(per));
+            }
+            eprintln!("[C15] nesting: smallest overflowing depth per entry and stack size ({:.1}s): {}", t.elapsed().as_secs_f64(), Value::Object(m.clone()));
+            ctx.extra("nesting_stack_overflow_min_depth", Value::Object(m));
+        }
     });
 }
